@@ -1,27 +1,40 @@
 (* C09 - executable model of the lock protocol of python/eups/lock.py (takeLocks / giveLocks) at the
-   granularity of file-system calls, for any number of processes on one stack.
+   granularity of file-system calls, for any number of processes and any number of stacks.
 
-   Shared state: does <stack>/.lockDir exist, and which lock files are in it.  A lock file
+   Shared state, per stack: does <stack>/.lockDir exist, and which lock files are in it.  A lock file
    <kind>-<user>.<pid> is represented by the pid of its owner; its kind is the kind requested by that
-   process.  [files] is in creation order, newest first.
+   process.  [files s k] is in creation order, newest first.
 
-   Each process has a program counter that names the NEXT file-system call it will make, and the
-   number i of the current iteration of the retry loop  for i in range(1, ntry + 1).  A process makes
-   one takeLocks call on the stack followed by one giveLocks call.  The scheduler (the caller of
-   [step]) is the only source of interleaving; the [choice] argument fixes which entry a directory
-   listing presents first (the order of glob.glob is arbitrary).
+   Each process makes one takeLocks call on its path of stacks (its EUPS_PATH), then one giveLocks call.
+   takeLocks locks the stacks in path order; the program counter names the NEXT file-system call, on
+   the stack the process is working on.  Per process there are also: the number i of the current
+   iteration of the retry loop  for i in range(1, ntry + 1)  (it restarts with every stack), the number
+   of stacks locked so far (the length of the python list locks), and the index of the lock giveLocks
+   is busy with.  The scheduler (the caller of [step]) is the only source of interleaving; the [choice]
+   argument fixes which entry a directory listing presents first (the order of glob.glob is arbitrary).
 
-   [step_gen true] is the protocol as repaired by proposed_fixes/C09-lock-revalidate.diff,
-   [step_gen false] the protocol of the pinned tree.  Definitions only; proofs are in Proofs/Lock*.v. *)
+   Three versions of the protocol, selected by two flags:
+     fx = false             the pinned tree: no second look after creating the lock file (defect D10)
+     fx = true, fr = false  with proposed_fixes/C09-lock-revalidate.diff: a takeLocks that fails on a later
+                            stack leaves the locks it took on the earlier ones
+     fx = true, fr = true   with proposed_fixes/C09-release-on-failure.diff as well: what the theorems of
+                            Props/C09.v are about
+   Definitions only; proofs are in Proofs/Lock*.v. *)
 From Eupsv Require Import Base.Base.
 
 Definition pid := nat.
+Definition stack := nat.
 Definition choice := nat.
 
 Inductive kind := Sh | Ex.
 
-(* the five file-system calls of giveLocks: isdir(d), exists(f), remove(f), next(walk(d)), rmdir(d) *)
+(* the five file-system calls giveLocks makes per lock: isdir(d), exists(f), remove(f), next(walk(d)), rmdir(d) *)
 Inductive gstep := GIsdir | GExistsF | GRemove | GCount | GRmdir.
+
+(* who called giveLocks: the command after its work; takeLocks to withdraw the lock file it has just created
+   on the stack it is working on; takeLocks to give back the stacks already locked before it raises
+   (crashed: the exception is not a RuntimeError) *)
+Inductive gmode := GRelease | GBackoff | GUnwind (crashed : bool).
 
 Inductive loc :=
 | LMkdir                     (* os.mkdir(lockDir) *)
@@ -31,36 +44,69 @@ Inductive loc :=
 | LScanX                     (* listLockers(lockDir, exclusive* ) *)
 | LScanX2                    (* one exclusive lock seen: listLockers(lockDir, exclusive*, getPids=True)[0] *)
 | LCreate                    (* os.open(lockFile, O_EXCL | O_RDWR | O_CREAT) *)
-| LValidate                  (* repaired protocol only: look again now that our file exists *)
+| LValidate                  (* fx only: look again now that our file exists *)
 | LHeld                      (* takeLocks has returned; the command runs; the next step calls giveLocks *)
-| LHeldNoLock                (* pinned protocol only: takeLocks returned without a lock, with trepidation *)
-| LGive (backoff : bool) (g : gstep)   (* inside giveLocks; backoff = called from takeLocks to withdraw *)
+| LHeldNoLock                (* pinned protocol only: takeLocks returned early, with trepidation *)
+| LGive (m : gmode) (g : gstep)   (* inside giveLocks *)
 | LDone                      (* giveLocks has returned *)
 | LFailed                    (* takeLocks raised RuntimeError *)
 | LCrashed.                  (* any other exception *)
 
 (* what each process asks for; root_of is the inherited environment variable EUPS_LOCK_PID *)
-Record config := { kind_of : pid -> kind; root_of : pid -> option pid; ntry_of : pid -> nat }.
+Record config := { kind_of : pid -> kind; root_of : pid -> option pid; ntry_of : pid -> nat;
+                   path_of : pid -> list stack }.
 
-Record state := { dir : bool; files : list pid; pc : pid -> loc; tries : pid -> nat }.
+(* the private part of a process *)
+Record local := { lpc : loc; ltry : nat; lnl : nat; lcur : nat }.
 
-Definition upd {A} (f : pid -> A) (p : pid) (v : A) : pid -> A :=
+Record state := { dir : stack -> bool; files : stack -> list pid;
+                  pc : pid -> loc; tries : pid -> nat; nlk : pid -> nat; cur : pid -> nat }.
+
+Definition upd {A} (f : nat -> A) (p : nat) (v : A) : nat -> A :=
   fun q => if Nat.eqb q p then v else f q.
 
 Definition init : state :=
-  {| dir := false; files := []; pc := fun _ => LMkdir; tries := fun _ => 1 |}.
+  {| dir := fun _ => false; files := fun _ => []; pc := fun _ => LMkdir; tries := fun _ => 1;
+     nlk := fun _ => 0; cur := fun _ => 0 |}.
+
+Definition local_of (s : state) (p : pid) : local :=
+  {| lpc := pc s p; ltry := tries s p; lnl := nlk s p; lcur := cur s p |}.
+
+Definition put (s : state) (p : pid) (lo : local) : state :=
+  {| dir := dir s; files := files s; pc := upd (pc s) p (lpc lo); tries := upd (tries s) p (ltry lo);
+     nlk := upd (nlk s) p (lnl lo); cur := upd (cur s) p (lcur lo) |}.
+
+Definition write (s : state) (k : stack) (d : bool) (fs : list pid) : state :=
+  {| dir := upd (dir s) k d; files := upd (files s) k fs; pc := pc s; tries := tries s;
+     nlk := nlk s; cur := cur s |}.
+
+Definition setpc (lo : local) (l : loc) : local :=
+  {| lpc := l; ltry := ltry lo; lnl := lnl lo; lcur := lcur lo |}.
+
+(* an end at which the process owns no lock *)
+Definition final_clean (lo : local) (l : loc) : local := {| lpc := l; ltry := ltry lo; lnl := 0; lcur := 0 |}.
+
+(* index, in the path, of the stack the next call is about *)
+Definition widx (lo : local) : nat :=
+  match lpc lo with
+  | LGive GRelease _ | LGive (GUnwind _) _ => lcur lo
+  | _ => lnl lo
+  end.
 
 Section Protocol.
-Variable fx : bool.          (* true: repaired protocol, false: pinned protocol *)
+Variable fx : bool.          (* second look after creating the lock file *)
+Variable fr : bool.          (* a failing takeLocks gives back the stacks it has locked *)
 Variable cfg : config.
 
 Definition isEx (q : pid) : bool := match kind_of cfg q with Ex => true | Sh => false end.
 
-(* os.environ.get(EUPS_LOCK_PID, -1) == pid of q's lock file *)
+(* os.environ.get(EUPS_LOCK_PID, -1) == pid of q's lock file.  (A process without an inherited
+   EUPS_LOCK_PID sets it to its own pid once its first stack is locked; comparing with one's own pid
+   changes nothing since a process never meets a lock file of its own on a stack it has yet to lock.) *)
 Definition is_root (p q : pid) : bool :=
   match root_of cfg p with Some r => Nat.eqb r q | None => false end.
 
-Fixpoint mem (p : pid) (fs : list pid) : bool :=
+Fixpoint mem (p : nat) (fs : list nat) : bool :=
   match fs with [] => false | q :: r => if Nat.eqb q p then true else mem p r end.
 
 Definition add (p : pid) (fs : list pid) : list pid := if mem p fs then fs else p :: fs.
@@ -77,80 +123,132 @@ Definition only_root (p : pid) (fs : list pid) : bool :=
 Definition others (p : pid) (fs : list pid) : list pid :=
   filter (fun q => negb (Nat.eqb q p) && negb (is_root p q)) fs.
 
-(* the re-validation of the repaired protocol: an exclusive lock tolerates no other lock, a shared
-   lock no exclusive one, locks of the EUPS_LOCK_PID ancestor excepted *)
+(* the second look: an exclusive lock tolerates no other lock, a shared lock no exclusive one, locks of
+   the EUPS_LOCK_PID ancestor excepted *)
 Definition conflict (p : pid) (fs : list pid) : bool :=
   match kind_of cfg p with
   | Ex => match others p fs with [] => false | _ => true end
   | Sh => existsb isEx (others p fs)
   end.
 
+(* an exception leaves takeLocks.  With fr the stacks already locked are given back first (none: the
+   process ends at once); without, their lock files stay behind *)
+Definition raise_ (crashed : bool) (lo : local) : local :=
+  let fin := if crashed then LCrashed else LFailed in
+  if fr then
+    if Nat.eqb (lnl lo) 0 then final_clean lo fin
+    else {| lpc := LGive (GUnwind crashed) GIsdir; ltry := ltry lo; lnl := lnl lo; lcur := 0 |}
+  else {| lpc := fin; ltry := ltry lo; lnl := lnl lo; lcur := 0 |}.
+
 (* after a contention in iteration i: raise on the last iteration, else sleep and go round the loop *)
-Definition retry (p : pid) (i : nat) : loc * nat :=
-  if Nat.eqb i (ntry_of cfg p) then (LFailed, i) else (LMkdir, S i).
+Definition retry (p : pid) (lo : local) : local :=
+  if Nat.eqb (ltry lo) (ntry_of cfg p) then raise_ false lo
+  else {| lpc := LMkdir; ltry := S (ltry lo); lnl := lnl lo; lcur := lcur lo |}.
 
-(* giveLocks has finished: a plain release is done; a withdrawal fails (shared) or retries (exclusive) *)
-Definition after_give (b : bool) (p : pid) (i : nat) : loc * nat :=
-  if b then match kind_of cfg p with Ex => retry p i | Sh => (LFailed, i) end
-  else (LDone, i).
+(* the stack is locked: on to the next one (the retry loop starts afresh), or return from takeLocks *)
+Definition advance (p : pid) (lo : local) : local :=
+  if Nat.eqb (S (lnl lo)) (length (path_of cfg p))
+  then {| lpc := LHeld; ltry := ltry lo; lnl := S (lnl lo); lcur := lcur lo |}
+  else {| lpc := LMkdir; ltry := 1; lnl := S (lnl lo); lcur := lcur lo |}.
 
-(* an exception inside giveLocks: swallowed by the repaired giveLocks, propagated by the pinned one *)
-Definition give_race (b : bool) (p : pid) (i : nat) : loc * nat :=
-  if fx then after_give b p i else (LCrashed, i).
+(* giveLocks is through with one lock *)
+Definition give_next (m : gmode) (p : pid) (lo : local) : local :=
+  match m with
+  | GBackoff => match kind_of cfg p with Ex => retry p lo | Sh => raise_ false lo end
+  | GRelease =>
+      if Nat.ltb (S (lcur lo)) (lnl lo)
+      then {| lpc := LGive GRelease GIsdir; ltry := ltry lo; lnl := lnl lo; lcur := S (lcur lo) |}
+      else final_clean lo LDone
+  | GUnwind c =>
+      if Nat.ltb (S (lcur lo)) (lnl lo)
+      then {| lpc := LGive (GUnwind c) GIsdir; ltry := ltry lo; lnl := lnl lo; lcur := S (lcur lo) |}
+      else final_clean lo (if c then LCrashed else LFailed)
+  end.
 
-(* One file-system call of process p whose program counter is l and loop index i, on the shared
-   state (d, fs).  Result: new shared state, new program counter, new loop index. *)
-Definition next (d : bool) (fs : list pid) (l : loc) (i : nat) (p : pid) (c : choice)
-  : bool * list pid * (loc * nat) :=
-  match l with
+(* an exception inside giveLocks: it leaves takeLocks if that is the caller, else it ends the process
+   (the locks giveLocks had not reached yet stay behind) *)
+Definition give_crash (m : gmode) (lo : local) : local :=
+  match m with
+  | GBackoff => raise_ true lo
+  | _ => {| lpc := LCrashed; ltry := ltry lo; lnl := lnl lo; lcur := S (lcur lo) |}
+  end.
+
+(* the directory vanished or was re-used between the count and the rmdir: swallowed by the repaired
+   giveLocks, an exception in the pinned one *)
+Definition give_race (m : gmode) (p : pid) (lo : local) : local :=
+  if fx then give_next m p lo else give_crash m lo.
+
+(* the command is over: giveLocks(locks) *)
+Definition begin_release (lo : local) : local :=
+  if Nat.eqb (lnl lo) 0 then final_clean lo LDone
+  else {| lpc := LGive GRelease GIsdir; ltry := ltry lo; lnl := lnl lo; lcur := 0 |}.
+
+(* One file-system call of process p, whose private state is lo, on the stack it is working on, whose
+   lock directory exists iff d and holds the lock files fs. *)
+Definition next (d : bool) (fs : list pid) (lo : local) (p : pid) (c : choice) : bool * list pid * local :=
+  match lpc lo with
   | LMkdir =>
-      if d then (d, fs, (match kind_of cfg p with Ex => LListAll | Sh => LExists end, i))
-      else (true, fs, (LScanX, i))
+      if d then (d, fs, setpc lo (match kind_of cfg p with Ex => LListAll | Sh => LExists end))
+      else (true, fs, setpc lo LScanX)
   | LListAll =>
-      (d, fs, (if only_root p fs then LScanX else LListAll2, i))
+      (d, fs, setpc lo (if only_root p fs then LScanX else LListAll2))
   | LListAll2 =>
-      (d, fs, retry p i)
+      (d, fs, retry p lo)
   | LExists =>
-      if d then (d, fs, (LScanX, i))
-      else if fx then (d, fs, retry p i)
-      else (d, fs, (LHeldNoLock, i))
+      if d then (d, fs, setpc lo LScanX)
+      else if fx then (d, fs, retry p lo)
+      else (d, fs, setpc lo LHeldNoLock)
   | LScanX =>
-      (d, fs, (match filter isEx fs with [] => LCreate | [_] => LScanX2 | _ => LFailed end, i))
+      (d, fs, match filter isEx fs with
+              | [] => setpc lo LCreate
+              | [_] => setpc lo LScanX2
+              | _ => raise_ false lo
+              end)
   | LScanX2 =>
-      (d, fs, (match pick c (filter isEx fs) with
-               | None => LCrashed                       (* IndexError: the lock went away *)
-               | Some q => if is_root p q then LCreate else LFailed
-               end, i))
+      (d, fs, match pick c (filter isEx fs) with
+              | None => raise_ true lo                  (* IndexError: the lock went away *)
+              | Some q => if is_root p q then setpc lo LCreate else raise_ false lo
+              end)
   | LCreate =>
-      if d then (d, add p fs, (if fx then LValidate else LHeld, i))
-      else (d, fs, (LCrashed, i))                        (* ENOENT is re-raised *)
+      if d then (d, add p fs, if fx then setpc lo LValidate else advance p lo)
+      else (d, fs, raise_ true lo)                       (* ENOENT is re-raised *)
   | LValidate =>
-      (d, fs, (if conflict p fs then LGive true GIsdir else LHeld, i))
-  | LHeld => (d, fs, (LGive false GIsdir, i))
-  | LHeldNoLock => (d, fs, (LDone, i))                   (* giveLocks of the empty list *)
-  | LGive b GIsdir =>
-      (d, fs, if d then (LGive b GExistsF, i) else after_give b p i)
-  | LGive b GExistsF =>
-      (d, fs, (if d && mem p fs then LGive b GRemove else LGive b GCount, i))
-  | LGive b GRemove =>
-      if d && mem p fs then (d, rem p fs, (LGive b GCount, i)) else (d, fs, (LCrashed, i))
-  | LGive b GCount =>
-      if d then (d, fs, match fs with [] => (LGive b GRmdir, i) | _ => after_give b p i end)
-      else (d, fs, give_race b p i)                      (* StopIteration from next(os.walk(d)) *)
-  | LGive b GRmdir =>
+      (d, fs, if conflict p fs then setpc lo (LGive GBackoff GIsdir) else advance p lo)
+  | LHeld | LHeldNoLock => (d, fs, begin_release lo)
+  | LGive m GIsdir =>
+      (d, fs, if d then setpc lo (LGive m GExistsF) else give_next m p lo)
+  | LGive m GExistsF =>
+      (d, fs, setpc lo (if d && mem p fs then LGive m GRemove else LGive m GCount))
+  | LGive m GRemove =>
+      if d && mem p fs then (d, rem p fs, setpc lo (LGive m GCount)) else (d, fs, give_crash m lo)
+  | LGive m GCount =>
+      if d then (d, fs, match fs with [] => setpc lo (LGive m GRmdir) | _ => give_next m p lo end)
+      else (d, fs, give_race m p lo)                     (* StopIteration from next(os.walk(d)) *)
+  | LGive m GRmdir =>
       if d then match fs with
-                | [] => (false, fs, after_give b p i)
-                | _ => (d, fs, give_race b p i)          (* ENOTEMPTY *)
+                | [] => (false, fs, give_next m p lo)
+                | _ => (d, fs, give_race m p lo)         (* ENOTEMPTY *)
                 end
-      else (d, fs, give_race b p i)                      (* ENOENT *)
-  | LDone => (d, fs, (LDone, i))
-  | LFailed => (d, fs, (LFailed, i))
-  | LCrashed => (d, fs, (LCrashed, i))
+      else (d, fs, give_race m p lo)                     (* ENOENT *)
+  | LDone | LFailed | LCrashed => (d, fs, lo)
+  end.
+
+(* a step that concerns no stack: takeLocks on an empty path returns at once; the holder calls giveLocks *)
+Definition nostack (lo : local) : local :=
+  match lpc lo with
+  | LMkdir => setpc lo LHeld
+  | LHeld | LHeldNoLock => begin_release lo
+  | _ => lo
   end.
 
 Definition step_gen (s : state) (p : pid) (c : choice) : state :=
-  match next (dir s) (files s) (pc s p) (tries s p) p c with
-  | (d, fs, (l, i)) => {| dir := d; files := fs; pc := upd (pc s) p l; tries := upd (tries s) p i |}
+  let lo := local_of s p in
+  match nth_error (path_of cfg p) (widx lo) with
+  | Some k =>
+      match next (dir s k) (files s k) lo p c with
+      | (d, fs, lo') => put (write s k d fs) p lo'
+      end
+  | None => put s p (nostack lo)
   end.
 
 Fixpoint run_gen (s : state) (sched : list (pid * choice)) : state :=
@@ -172,13 +270,15 @@ Inductive reachable_gen : state -> Prop :=
 
 End Protocol.
 
-(* the repaired protocol: what the theorems of Props/C09.v are about *)
-Definition step := step_gen true.
-Definition run := run_gen true.
-Definition reachable := reachable_gen true.
+(* the protocol with both repairs: what the theorems of Props/C09.v are about *)
+Definition step := step_gen true true.
+Definition run := run_gen true true.
+Definition reachable := reachable_gen true true.
 (* the protocol of the pinned tree: what mutex_refuted_pinned is about *)
-Definition step_pinned := step_gen false.
-Definition run_pinned := run_gen false.
+Definition step_pinned := step_gen false false.
+Definition run_pinned := run_gen false false.
+(* with the second look but without release on failure: what no_residue_refuted_norelease is about *)
+Definition run_norelease := run_gen true false.
 
 (* ---- the notions the property is stated with *)
 
@@ -191,43 +291,57 @@ Definition holds (s : state) (p : pid) : Prop := holdsb s p = true.
 Definition related (cfg : config) (p q : pid) : Prop := root_of cfg p = Some q \/ root_of cfg q = Some p.
 Definition relatedb (cfg : config) (p q : pid) : bool := is_root cfg p q || is_root cfg q p.
 
-(* a process that is not in the middle of takeLocks / giveLocks *)
-Definition idle (l : loc) : bool :=
-  match l with LMkdir | LDone | LFailed | LCrashed => true | _ => false end.
-Definition quiescent (s : state) : Prop := forall p, idle (pc s p) = true.
+(* both lock the stack k *)
+Definition share_stack (cfg : config) (p q : pid) : bool :=
+  existsb (fun k => mem k (path_of cfg q)) (path_of cfg p).
 
-(* ---- observation of a state for the correspondence check, restricted to the listed pids *)
-Definition view (s : state) (ps : list pid) : bool * list pid * list (pid * loc * nat) :=
-  (dir s, files s, map (fun p => (p, pc s p, tries s p)) ps).
+(* a process that is not in the middle of takeLocks / giveLocks: not started, or ended *)
+Definition idle (lo : local) : bool :=
+  match lpc lo with
+  | LMkdir => Nat.eqb (lnl lo) 0
+  | LDone | LFailed | LCrashed => true
+  | _ => false
+  end.
+Definition quiescent (s : state) : Prop := forall p, idle (local_of s p) = true.
 
-(* configuration from association lists, as the driver builds it: (pid, kind, root, ntry) *)
-Fixpoint cfg_lookup (l : list (pid * (kind * option pid * nat))) (p : pid) : kind * option pid * nat :=
+(* every process locks each stack at most once *)
+Definition wf (cfg : config) : Prop := forall p, NoDup (path_of cfg p).
+
+(* ---- observation of a state for the correspondence check, restricted to the listed stacks and pids *)
+Definition view (s : state) (ks : list stack) (ps : list pid)
+  : list (bool * list pid) * list (pid * local) :=
+  (map (fun k => (dir s k, files s k)) ks, map (fun p => (p, local_of s p)) ps).
+
+(* configuration from association lists, as the driver builds it: (pid, (kind, root, ntry, path)) *)
+Definition procs := list (pid * (kind * option pid * nat * list stack)).
+Fixpoint cfg_lookup (l : procs) (p : pid) : kind * option pid * nat * list stack :=
   match l with
-  | [] => (Sh, None, 1)
+  | [] => (Sh, None, 1, [])
   | (q, v) :: r => if Nat.eqb q p then v else cfg_lookup r p
   end.
-Definition cfg_of (l : list (pid * (kind * option pid * nat))) : config :=
-  {| kind_of := fun p => fst (fst (cfg_lookup l p));
-     root_of := fun p => snd (fst (cfg_lookup l p));
-     ntry_of := fun p => snd (cfg_lookup l p) |}.
+Definition cfg_of (l : procs) : config :=
+  {| kind_of := fun p => fst (fst (fst (cfg_lookup l p)));
+     root_of := fun p => snd (fst (fst (cfg_lookup l p)));
+     ntry_of := fun p => snd (fst (cfg_lookup l p));
+     path_of := fun p => snd (cfg_lookup l p) |}.
 
 (* the oracle of the property in boolean form, on one state and the listed pids: no two distinct,
-   unrelated holders of which one is exclusive *)
+   unrelated holders that lock a common stack and of which one is exclusive *)
 Definition mutex_okb (cfg : config) (s : state) (ps : list pid) : bool :=
   forallb (fun p => forallb (fun q =>
-    Nat.eqb p q || relatedb cfg p q || negb (holdsb s p && holdsb s q) ||
+    Nat.eqb p q || relatedb cfg p q || negb (holdsb s p && holdsb s q) || negb (share_stack cfg p q) ||
     (negb (isEx cfg p) && negb (isEx cfg q))) ps) ps.
 
 (* what the driver prints for one schedule: every state along it (the start state first), seen on the
-   declared pids, with the verdict of the oracle; a schedule that names an undeclared pid is refused *)
-Definition declared (l : list (pid * (kind * option pid * nat))) (p : pid) : bool :=
-  existsb (fun e => Nat.eqb (fst e) p) l.
+   stacks 0 .. nstacks-1 and the declared pids, with the verdict of the oracle; a schedule that names an
+   undeclared pid is refused *)
+Definition declared (l : procs) (p : pid) : bool := existsb (fun e => Nat.eqb (fst e) p) l.
 
-Definition trace_view (fx : bool) (l : list (pid * (kind * option pid * nat))) (sched : list (pid * choice))
-  : res (list (bool * list pid * list (pid * loc * nat) * bool)) :=
+Definition trace_view (fx fr : bool) (l : procs) (nstacks : nat) (sched : list (pid * choice))
+  : res (list (list (bool * list pid) * list (pid * local) * bool)) :=
   if forallb (fun e => declared l (fst e)) sched
-  then Ok (map (fun s => (view s (map fst l), mutex_okb (cfg_of l) s (map fst l)))
-               (trace_gen fx (cfg_of l) init sched))
+  then Ok (map (fun s => (view s (seq 0 nstacks) (map fst l), mutex_okb (cfg_of l) s (map fst l)))
+               (trace_gen fx fr (cfg_of l) init sched))
   else Err NotFound.
 
 (* ---- which lock each command takes (the table itself is Generated/Locks.v) *)
